@@ -7,6 +7,7 @@ import Rare.Proofs.C09Lookup
 import Rare.Proofs.C09Gen
 import Rare.Proofs.C09Err
 import Rare.Proofs.C09WF
+import Rare.Proofs.C09WFB
 import Rare.Gen.Tables
 /-!
 Property C09 – template syntax: literals, escapes, quotes and nesting parse as documented.
@@ -407,6 +408,13 @@ theorem syntax_error_iff_malformed (reg : Registry) (opt : Bool) (t : List Char)
     intro e he
     refine ⟨fun hk => hne ⟨e, he, Or.inl hk⟩, fun hk => hne ⟨e, he, Or.inr (Or.inl hk)⟩,
       fun hk => hne ⟨e, he, Or.inr (Or.inr hk)⟩⟩
+
+/-- The grammar is decidable, and the program that decides it – `wfB`, brace depth + statement bodies + splitter,
+    recursing into the arguments of known functions; it never compiles anything – is what the correspondence op
+    `wfck` runs against the real `Compile`'s `errors.Is` answers. -/
+theorem wellformed_decidable (known : List Char → Bool) (t : List Char) :
+    wfB splitArgs known (t.length + 1) t = true ↔ WellFormed splitArgs known t :=
+  wfB_splitArgs known t
 
 /-- Every printed tree is a well-formed template (the documented grammar lies inside `WellFormed`). -/
 theorem printed_tree_wellformed (reg : Registry) (fn : List Char → List Bytes → Bytes) (σ : Style) (e : C09.Expr)
